@@ -607,3 +607,186 @@ def run_scenario(cfg, wire, steps, mode, env=None):
         return None
     finally:
         run.close()
+
+
+# ----------------------------------------------------------------------------------------------
+# C08: the real SimpleAsyncHTTPClient over a fake TCP client
+
+class FakeTCPClient:
+    """Stands in for tornado.tcpclient.TCPClient: connect() hands out a MemStream the harness feeds."""
+
+    def __init__(self, env):
+        self.env = env
+        self.streams = []
+
+    async def connect(self, host, port, af=None, ssl_options=None, max_buffer_size=None, source_ip=None,
+                      source_port=None, timeout=None):
+        s = MemStream(self.env, max_buffer_size=max_buffer_size)
+        self.streams.append(s)
+        return s
+
+    def close(self):
+        pass
+
+
+class ClientRun:
+    """One fetch of a real SimpleAsyncHTTPClient whose connection is a MemStream."""
+
+    def __init__(self, cfg, streaming=False, env=None):
+        from tornado.simple_httpclient import SimpleAsyncHTTPClient
+        self.own_env = env is None
+        self.env = env or Env()
+        self.cfg = cfg
+        self.streaming = streaming
+        self.log = LogCapture()
+        self.log.__enter__()
+        kw = {}
+        if cfg.get("maxBody", 1000000) != 1000000:
+            kw["max_body_size"] = cfg["maxBody"]
+        if cfg.get("maxHdr", 65536) != 65536:
+            kw["max_header_size"] = cfg["maxHdr"]
+        self.client = SimpleAsyncHTTPClient(force_instance=True, **kw)
+        self.tcp = FakeTCPClient(self.env)
+        self.client.tcp_client = self.tcp
+        self.chunks = []
+        fkw = {"method": "HEAD" if cfg.get("head") else "GET", "decompress_response": bool(cfg.get("decompress")),
+               "raise_error": False, "request_timeout": 0, "connect_timeout": 0}
+        if streaming:
+            fkw["streaming_callback"] = self.chunks.append
+        self.errors = []
+        try:
+            self.fut = self.client.fetch("http://h/", **fkw)
+        except Exception as e:
+            self.fut = None
+            self.errors.append(type(e).__name__)
+        self.env.settle()
+        self.stream = self.tcp.streams[0] if self.tcp.streams else None
+        if self.stream is not None:
+            self.stream.pump()
+        self.request_bytes = bytes(self.stream.out) if self.stream is not None else b""
+
+    def arrive(self, data):
+        if self.stream is not None and not self.stream.closed():
+            self.stream.feed(bytes(data))
+        self.env.settle()
+
+    def eof(self):
+        if self.stream is not None and not self.stream.closed():
+            self.stream.feed_eof()
+        self.env.settle()
+
+    def proj(self):
+        logs = sorted(set((n, l) for (n, l, m, exc) in self.log.records
+                          if getattr(logging, l) >= logging.WARNING or n == "tornado.application"))
+        streamed = b"".join(self.chunks)
+        base = {"logs": [list(x) for x in logs], "streamed": list(streamed),
+                "errors": [type(c.get("exception")).__name__ for c in self.env.loop.uncaught] + self.errors}
+        if self.fut is None or not self.fut.done():
+            return dict(base, st="pending")
+        if self.fut.exception() is not None:
+            return dict(base, st="error", err=type(self.fut.exception()).__name__)
+        r = self.fut.result()
+        if r.code == 599:
+            return dict(base, st="error", err=type(r.error).__name__)
+        body = streamed if self.streaming else (r.body or b"")
+        return dict(base, st="ok", code=r.code, hs=norm_headers(r.headers.get_all()), body=list(body))
+
+    def close(self):
+        self.log.__exit__()
+        try:
+            self.client.close()
+        except Exception:
+            pass
+        if self.own_env:
+            self.env.close()
+
+
+def client_expect(exp):
+    """What the fetch must have returned, given the fold of the trail (the last message is the response;
+    interim 1xx messages are not part of the trail)."""
+    if exp.rej != "none":
+        return {"st": "error"}
+    if exp.msgs and exp.msgs[-1]["end"] == "F":
+        m = exp.msgs[-1]
+        return {"st": "ok", "code": m["sl"][1], "hs": m["hs"], "body": m["body"]}
+    return {"st": "pending"}
+
+
+def compare_client(exp, obs, maxb, final=False):
+    """None if the fetch's state is one the specification allows.  Permissive points: when the body
+    limit of a close-delimited body is enforced (at the latest when the message ends); a gzip body
+    that will exceed the limit may be refused as soon as the decoder notices."""
+    e = client_expect(exp)
+    why = None
+    if obs["st"] != e["st"]:
+        if e["st"] == "error" and exp.rej == "bodysize" and obs["st"] == "pending" and not final:
+            pass
+        elif e["st"] == "pending" and exp.gzflux and exp.gzover and obs["st"] == "error":
+            pass
+        else:
+            why = "status"
+    elif e["st"] == "ok":
+        for k in ("code", "hs", "body"):
+            if obs[k] != e[k]:
+                why = k
+                break
+    if why is None and (len(obs["streamed"]) > maxb or len(obs.get("body", [])) > maxb):
+        why = "limit"
+    if why is None and obs["logs"]:
+        why = "logs"
+    if why is None and obs["errors"]:
+        why = "errors"
+    return why
+
+
+def run_client_schedule(cfg, wire, chunks, trail, eofs, streaming=False, env=None):
+    run = ClientRun(cfg, streaming=streaming, env=env)
+    try:
+        exp = Expect()
+        ti = 0
+        fed = 0
+        maxb = cfg["maxBody"]
+        for ci, c in enumerate(chunks):
+            run.arrive(c)
+            fed += len(c)
+            while ti < len(trail) and trail[ti]["k"] <= fed:
+                exp.apply(trail[ti])
+                ti += 1
+            obs = run.proj()
+            why = compare_client(exp, obs, maxb)
+            if why:
+                return {"step": ci, "act": "arrive", "fed": fed, "why": why, "exp": dict(client_expect(exp), rej=exp.rej), "obs": obs}
+            if exp.closed:
+                break
+        if not exp.closed:
+            ent = [e for e in eofs if e["k"] == fed]
+            if ent:
+                run.eof()
+                exp.apply(ent[0])
+                obs = run.proj()
+                why = compare_client(exp, obs, maxb, final=True)
+                if why:
+                    return {"step": len(chunks), "act": "eof", "fed": fed, "why": why,
+                            "exp": dict(client_expect(exp), rej=exp.rej), "obs": obs}
+        return None
+    finally:
+        run.close()
+
+
+def record_client_trace(tid, cfg, wire, pieces, eof=True, streaming=False):
+    run = ClientRun(cfg, streaming=streaming)
+    ev = []
+    try:
+        pos = 0
+        for n in pieces:
+            if run.stream is None or run.stream.closed():
+                break
+            run.arrive(wire[pos:pos + n])
+            pos += n
+            ev.append({"a": "arrive", "args": [n], "obs": run.proj()})
+        if eof and run.stream is not None and not run.stream.closed():
+            run.eof()
+            ev.append({"a": "eof", "args": [], "obs": run.proj()})
+        return {"id": tid, "cfg": cfg, "wire": list(wire), "ev": ev}
+    finally:
+        run.close()
